@@ -425,6 +425,36 @@ def run_case(case, ctx):
                 w.update({"pts": pts, "ms": list(ms), "order": order, "moved_to": P2, "retimed_to": ms2})
                 return violated(w, sig, nontrivial, cls + ["recompute_after_edit"])
             cls.append("recompute_after_edit")
+    # call history on a second track object: the per-leg feature 'ds' is computed by the user, the track is then
+    # trimmed at its ends (the legs that remain keep their lengths), and the abscissa is computed on what is left
+    if n >= 3:
+        from tracklib.algo.analytics import ds as af_ds
+        k_head = 1 + (len(sig[1]) + int(ms[-1] // 7)) % (n - 2)         # 1 .. n-2 fixes removed at the head
+        k_tail = (int(ms[0] // 11) % 2) if n - k_head >= 3 else 0
+        how = ("remove_first", "extract")[int(ms[-1] // 13) % 2]
+        tr3 = gen.make_track([tuple(p) for p in pts], ms)
+        r = M.call(tr3.addAnalyticalFeature, af_ds)
+        if not M.is_raised(r) and "ds" in tr3.getListAnalyticalFeatures():
+            if how == "remove_first":
+                for _ in range(k_head):
+                    tr3.removeFirstObs()
+                for _ in range(k_tail):
+                    tr3.removeLastObs()
+            else:
+                tr3 = tr3.extract(k_head, n - 1 - k_tail)
+            P3 = P[k_head:n - k_tail]
+            if tr3.size() == len(P3) and len(P3) >= 2:
+                ctx.monitor("abs_curv_after_trimming")
+                r = M.call(computeAbsCurv, tr3)
+                f = M.call(tr3.getAnalyticalFeature, "abs_curv")
+                w = ({"what": "computeAbsCurv raised on a trimmed track", "raised": r} if M.is_raised(r) else None) \
+                    or _check_abs_curv(f, P3, ctx, "feature (track carrying a user-computed 'ds', trimmed by %s: %d at the "
+                                                   "head, %d at the tail)" % (how, k_head, k_tail)) \
+                    or _check_abs_curv(r, P3, ctx, "return value (trimmed track)")
+                if w:
+                    w.update({"pts": pts, "ms": list(ms), "order": order, "trimmed_to": P3})
+                    return violated(w, sig, nontrivial, cls + ["trimmed_with_ds"])
+                cls.append("trimmed_with_ds")
     return held(sig, nontrivial, cls)
 
 
